@@ -5,18 +5,11 @@ from . import strace
 
 
 def holds_lock(steps):
-    """does a process that has run exactly these calls hold the exclusive lock?"""
+    """is a process that has run exactly these calls inside its lock section — exclusive lock obtained, unlock not yet attempted?
+    (Position in the program, not descriptor state: a lock descriptor closed early is exactly what the oracles must notice.)"""
     got = any(s["call"] == "flock" and "LOCK_EX" in s.get("flags", []) and s["ret"] == "0" for s in steps)
-    dropped = any((s["call"] == "flock" and "LOCK_UN" in s.get("flags", [])) for s in steps)
-    # closing the lock descriptor drops the lock too
-    closed = False
-    seen_lock = False
-    for s in steps:
-        if s["call"] == "flock" and "LOCK_EX" in s.get("flags", []) and s["ret"] == "0":
-            seen_lock = True
-        elif seen_lock and s["call"] == "close" and s["obj"] == "lock":
-            closed = True
-    return got and not dropped and not closed
+    unlocked = any((s["call"] == "flock" and "LOCK_UN" in s.get("flags", [])) for s in steps)
+    return got and not unlocked
 
 
 class Parked:
